@@ -6,6 +6,7 @@ from .constants import CALL, POS, RESULT, STATUS
 
 class Call(Expression):
     num_blocks = 0
+    uses_yield = True
 
     def __init__(self, func, args):
         self.func = func
